@@ -412,6 +412,33 @@ def run(report, index, tier):
     M = models(index)
     lmodel, g = M.lexmodel, M.grammar
     declared = set(lmodel.tokens)
+    # the lexer specification ply reads is the class's, the same for every
+    # instance: a rule, `tokens` or `states` set on the instance (by
+    # __init__, possibly depending on its flags) is honoured when the
+    # tables are computed and ignored when they are loaded
+    linit = lm.class_methods('Lexer').get('__init__')
+    if linit is None:
+        raise AnalysisError('Lexer.__init__ vanished')
+    for wc in (False, True):
+        for yc in (False, True):
+            o = Obj('Lexer', build=('pyfunc', lambda **kw: None))
+            evl = Evaluator(lm, 'Lexer', lm.class_methods('Lexer'), {})
+            try:
+                evl.call(linit, [], {'with_comments': wc,
+                                     'yield_comments': yc}, self_obj=o)
+                spec = sorted(k for k in o.__dict__['_fields']
+                              if k.startswith('t_') or k in (
+                                  'tokens', 'states', 'literals'))
+            except Raised as e:
+                spec = ['raises %s' % e.text]
+            r4.check(not spec, 'Lexer(with_comments=%s, yield_comments=%s) '
+                     'keeps the class specification' % (wc, yc),
+                     'Lexer.__init__(with_comments=%s, yield_comments=%s)'
+                     % (wc, yc),
+                     'sets %s on the instance: the lexer built without '
+                     'cached tables follows it, the one loaded from a '
+                     'generated table does not' % ', '.join(spec),
+                     where='lexers/es5.py:Lexer.__init__')
     for word, ttype in sorted(lmodel.keywords_dict.items()):
         r4.check(ttype in declared, 'keyword type %s' % ttype,
                  'keywords_dict[%r] = %r' % (word, ttype),
